@@ -1,5 +1,118 @@
-"""C06 - Stroke and fill of closed shapes follow fill_area()/stroke_area()  (metadata; generators live here and/or in props/C06_*.py parts)"""
-CLAIMED = False   # set True by the owner once ./check C06 passes with real theorems
+"""C06 - Stroke and fill of closed shapes follow fill_area()/stroke_area()
+(metadata + the Rectangle/Circle/Ellipse generators; RoundedRectangle adds props/C06_rrect.py)"""
+from common import *
+
 LEVEL = 'proof'
-LEVEL_TEXT = 'TODO'
-LEVEL_NOTE = 'TODO'
+COLOURS = [(1, 1), (1, 0), (0, 1), (0, 0)]       # (stroke set, fill set)
+POS = [(0, 0), (-7, 3), (-30, -41), (5, -2)]
+
+
+def styles(maxw):
+    for w in range(0, maxw + 1):
+        for al in range(3):
+            for (s, f) in COLOURS:
+                yield (w, al, s, f)
+
+
+def cases(tier, rng):
+    quick = tier == 'quick'
+    # exhaustive small shapes x all stroke widths up to wider-than-the-shape x alignments x colour combinations
+    D, WD = (9, 6) if quick else (16, 10)
+    k = 0
+    for d in range(0, D + 1):
+        for st in styles(WD):
+            x, y = POS[k % 4]
+            k += 1
+            yield J('circ_styled', x, y, d, *st)
+    E, WE = (6, 4) if quick else (10, 7)
+    for w in range(0, E + 1):
+        for h in range(0, E + 1):
+            for st in styles(WE):
+                x, y = POS[k % 4]
+                k += 1
+                if quick and (k % 2):
+                    yield J('ell_styled', x, y, w, h, *st)
+                else:
+                    yield J('rect_styled', x, y, w, h, *st)
+                if not quick:
+                    yield J('ell_styled' if (k % 2) == 0 else 'rect_styled', x, y, w, h, *st)
+    n = 600 if quick else 8000
+    for _ in range(n):
+        x, y = coord(rng), coord(rng)
+        st = (rng.choice([0, 1, 2, 3, rng.randrange(0, 30)]), rng.randrange(3), *rng.choice(COLOURS))
+        yield J('circ_styled', x, y, rng.randrange(0, 60), *st)
+        w, h = rng.choice([(rng.randrange(0, 50), rng.randrange(0, 50)), (rng.randrange(0, 6), rng.randrange(0, 80)),
+                           (rng.randrange(0, 80), rng.randrange(0, 6))])
+        yield J('ell_styled', x, y, w, h, *st)
+        yield J('rect_styled', x, y, w, h, *st)
+    # partly / fully outside the target box (-200,-200) 500x500
+    for _ in range(n // 10):
+        x, y = rng.choice([-230, -205, 280, 295, 320]), rng.choice([-230, -205, 0, 280, 295])
+        st = (rng.randrange(0, 12), rng.randrange(3), *rng.choice(COLOURS))
+        yield J('circ_styled', x, y, rng.randrange(0, 50), *st)
+        yield J('ell_styled', x, y, rng.randrange(0, 50), rng.randrange(0, 50), *st)
+        yield J('rect_styled', x, y, rng.randrange(0, 50), rng.randrange(0, 50), *st)
+
+
+def search(tier, rng):
+    quick = tier == 'quick'
+    D, WD = (12, 8) if quick else (24, 14)
+    for d in range(0, D + 1):
+        for st in styles(WD):
+            yield J('p_circ_c06', -3, 2, d, *st)
+    E, WE = (7, 5) if quick else (12, 8)
+    k = 0
+    for w in range(0, E + 1):
+        for h in range(0, E + 1):
+            for st in styles(WE):
+                k += 1
+                if not quick or k % 2:
+                    yield J('p_ell_c06', 4, -6, w, h, *st)
+                if not quick or not k % 2:
+                    yield J('p_rect_c06', 4, -6, w, h, *st)
+    n = 500 if quick else 8000
+    for _ in range(n):
+        x, y = coord(rng), coord(rng)
+        st = (rng.choice([0, 1, 2, 3, rng.randrange(0, 40)]), rng.randrange(3), *rng.choice(COLOURS))
+        yield J('p_circ_c06', x, y, rng.randrange(0, 70), *st)
+        w, h = rng.choice([(rng.randrange(0, 60), rng.randrange(0, 60)), (rng.randrange(0, 6), rng.randrange(0, 90)),
+                           (rng.randrange(0, 90), rng.randrange(0, 6))])
+        yield J('p_ell_c06', x, y, w, h, *st)
+        yield J('p_rect_c06', x, y, w, h, *st)
+
+
+def trivial(line, res):
+    return res in ('', 'none', '0') or ' DRAW  DRAWI  PIX ' in res + ' '
+
+
+RULE = ('Rectangle/Circle/Ellipse: correspondence of styled draw() (pixel map on a native and on a draw_iter-only recording target), '
+        'pixels() (item list), fill_area(), stroke_area() and the styled bounding box between the extracted model and the code for ALL '
+        'diameters 0..D resp. axis/side pairs 0..E x ALL stroke widths 0..W (wider than the shape included) x 3 alignments x '
+        '{both, stroke only, fill only, none} (D,W = 9,6 quick / 16,10 thorough; E,W = 6,4 / 10,7), plus random larger and thin shapes, '
+        'wide strokes and shapes partly outside the target. search: the C06 predicate itself on the code - the pixel maps of draw() '
+        '(both targets) and pixels() equal "fill colour on fill_area().contains, stroke colour on stroke_area().contains minus fill area if '
+        'width > 0", pixels() yields no point twice, the areas equal the documented grow/shrink rule recomputed independently, an inside '
+        'stroke stays inside and an outside stroke stays outside. non-trivial = something is painted.')
+EXHAUSTIVE = {'quick': False, 'thorough': False}
+ASSUMPTIONS = ['coordinates, extents and stroke width within 2^27 (no saturating operation of the model is reached, also not in the '
+               'stroke area); squared distances and products are unbounded integers in the model (see C05 / C08 for the machine ranges)',
+               'solid stroke style (the wording of C06); the dotted rectangle border of rectangle/styled.rs is not modelled']
+TRUSTED = ['modelled, not verified: a draw() is represented by the list of fill_solid calls it issues and a correct target paints '
+           'exactly the rectangle of each call (C01(a)/C03 are about targets); `as u32`/`as i32` casts of in-range values; '
+           'Option<Range>::unwrap_or_else in StyledScanline::new']
+PARTIAL = []
+
+LEVEL_TEXT = ('Proof: Coq theorems over the Gallina models of the styled Rectangle, Circle and Ellipse (fill rectangle + four border '
+              'rectangles with the min/saturating arithmetic as written; StyledScanlines = scanline of the stroke area with the fill range '
+              'searched inside it, three-way match on the colours in draw_styled and in the pixel iterator, effective_stroke_color vs '
+              'stroke_color as written) state that the pixel map of draw() and of pixels() is exactly: fill colour where fill_area() contains '
+              'the point, stroke colour where stroke_area() does and fill_area() does not (width > 0), nothing elsewhere - for every stroke '
+              'width including wider than the shape, the three alignments and every combination of set/unset colours. The areas are proved to '
+              'be the shape grown by the outside / shrunk by the inside part of the width (collapsed when the inside part eats the shape), '
+              'with the corollaries that an inside stroke never leaves the shape and an outside stroke never enters it. Models are tied to the '
+              'code by running extracted model and real code on the same inputs on every run.')
+LEVEL_NOTE = ('Trusted: Coq kernel, extraction (ExtrOcamlBasic), the OCaml/Rust drivers; the hand-written model is validated by '
+              'differential testing, not proved equal to the Rust code; arithmetic is unbounded Z (see assumptions). "pixels() yields '
+              'no point twice" is a theorem for all three shapes (circle/ellipse: items are strictly row-major).')
+
+CLAIMED = True
